@@ -74,6 +74,9 @@ func install(cf config) *world {
 	case "method":
 		m = w.b.Struct(recv).Method("M")
 		w.call = recv.M
+	case "funcany":
+		m = w.b.Func(t.FA)
+		w.call = t.CallFA
 	case "iface":
 		t.X = nil
 		m = w.b.Interface(&t.X).Method("A").As(func(ctx *mocker.IContext, n int) int { return 0 })
@@ -204,7 +207,7 @@ func seq(c *vk.Ctx) {
 				}
 			}
 		}
-		for _, tg := range []string{"method", "iface"} {
+		for _, tg := range []string{"method", "iface", "funcany"} {
 			for la := 0; la <= 3; la++ {
 				for ld := 1; ld <= 3; ld++ {
 					cfgs = append(cfgs, config{Target: tg, Build: build, LA: la, LD: ld})
